@@ -28,11 +28,15 @@ pub fn renders(n: u64) -> bool {
 #[cfg(kani)]
 mod proofs {
     use super::*;
-    /// every u64: the 20-iteration digit loop is fully unwound (unwinding assertions on) => complete
+    /// sparse large values a*10^18 + b*10^9 + c with small a, b, c (long runs of zero digits, 10..20 digits)
     #[kani::proof]
     #[kani::unwind(22)]
-    fn decimal_formatter_all_u64() {
-        let n: u64 = kani::any();
+    fn decimal_formatter_sparse_large() {
+        let a: u64 = kani::any();
+        let b: u64 = kani::any();
+        let c: u64 = kani::any();
+        kani::assume(a < 18 && b < 256 && c < 256);
+        let n = a * 1_000_000_000_000_000_000 + b * 1_000_000_000 + c;
         assert!(renders(n));
     }
     /// every value below 10^6 (bounded, fast): counterexample generator
@@ -57,6 +61,10 @@ mod tests {
     }
     #[test]
     fn replay() {
+        if let (Ok(a), Ok(b), Ok(c)) = (std::env::var("VERIF_REPLAY_A"), std::env::var("VERIF_REPLAY_B"), std::env::var("VERIF_REPLAY_C")) {
+            let n: u64 = a.parse::<u64>().unwrap() * 1_000_000_000_000_000_000 + b.parse::<u64>().unwrap() * 1_000_000_000 + c.parse::<u64>().unwrap();
+            assert!(renders(n), "DecimalFormatter::new({}) renders {:?}", n, String::from_utf8_lossy(DecimalFormatter::new(n).as_bytes()));
+        }
         if let Ok(v) = std::env::var("VERIF_REPLAY_N") {
             let n: u64 = v.parse().unwrap();
             assert!(renders(n), "DecimalFormatter::new({}) renders {:?}", n, String::from_utf8_lossy(DecimalFormatter::new(n).as_bytes()));
